@@ -3415,7 +3415,7 @@ Section RT.
   Proof. intros w [->|[->| ->]]; reflexivity. Qed.
 
   (** the state after the symbol loop has peeked what follows the NS_ block *)
-  Lemma ns_end : forall following c r P l k ll, c :: r = cr ++ 10 :: following -> rest_top following -> 0 <= k ->
+  Lemma ns_end : forall following c r P l k ll, c :: r = cr ++ 10 :: following -> rest_ok following -> 0 <= k ->
     exists tok sc', peek_token (PS (stepS c r P l k ll c ws_sig_tab) None) = POk tok (PS sc' (Some tok))
                     /\ t_typ tok <> c_tab
                     /\ Ready SL (l + 1) (P + blen cr + 1) following (PS (set_ws sc' ws_default) (Some tok)).
@@ -3427,7 +3427,7 @@ Section RT.
     assert (Hrun : wsrun ws_sig_tab (g1 ++ g)) by (apply blank_wsrun; [right; reflexivity|apply Forall_app; split; assumption]).
     assert (Hend' : exists g', w :: g1 ++ g = g' ++ [10]).
     { destruct Hge as [->|(g' & ->)]; [rewrite app_nil_r; exact Hend|]. exists (w :: g1 ++ g'). cbn [app]. rewrite <- app_assoc. reflexivity. }
-    destruct Htop as [(-> & Hf)|(kw & c' & r' & -> & Hk1 & Hc' & Hnc' & Hf & _)].
+    destruct Htop as [(-> & Hf)|(kw & c' & r' & -> & Hk1 & Hc' & Hnc' & Hf)].
     - rewrite !app_nil_r.
       destruct (sc_scan_run_eof (g1 ++ g) w [w] P' l' k' ll' ws_sig_tab) as (tok & s' & E' & Ht);
         try assumption; [rewrite app_length; lia|apply blank_ws_tab; assumption|].
@@ -3458,7 +3458,7 @@ Section RT.
 
   Lemma ns_loop_run : forall syms f racc following c r P l k ll,
     c :: r = cr ++ 10 :: ns_text cr syms ++ following ->
-    rest_top following -> Forall (fun s => ident_valid s = true) syms ->
+    rest_ok following -> Forall (fun s => ident_valid s = true) syms ->
     (length syms < f)%nat -> (length cr + length (ns_text cr syms) + 4 < F)%nat -> 0 <= k ->
     exists tok sc', new_symbols_loop il id F f racc (PS (stepS c r P l k ll c ws_sig_tab) None)
                     = POk (rev racc ++ syms) (PS sc' (Some tok))
@@ -3503,7 +3503,7 @@ Section RT.
         exact HR.
   Qed.
 
-  Lemma step_new_symbols : forall syms rest line off ll, wf_sdef (SNewSymbols syms) -> rest_top rest ->
+  Lemma step_new_symbols : forall syms rest line off ll, wf_sdef (SNewSymbols syms) -> rest_ok rest ->
     (length (print_def cr (SNewSymbols syms)) + 4 <= F)%nat ->
     exists st', parse_new_symbols il id F (canon line off kw_new_symbols 32 (58 :: cr ++ 10 :: ns_text cr syms ++ rest) ll)
                 = POk (elab_def cr line off (SNewSymbols syms)) st'
@@ -3543,73 +3543,76 @@ Section RT.
       non-identifier character *)
   Lemma print_def_head : forall d rest, wf_sdef d ->
     exists kw c r, print_def cr d ++ rest = kw ++ c :: r /\ is_ident kw /\ ascii c /\ idc c = false
-                   /\ (length kw + SL <= length (print_def cr d))%nat /\ bytes_eqb kw kw_signal = false.
+                   /\ (length kw + SL <= length (print_def cr d))%nat /\ (is_signal d = false -> bytes_eqb kw kw_signal = false).
   Proof.
-    intros d rest Hw. destruct d as [s|[[b [[b1 b2]|]]|]|ns|mi mn msz mtx sigs|kw ts|co ct|[vi|] vn vvs|tn tvs|svi svn svc svt|xi xtxs|en et emn emx eu einit ei eacc enode enodes|dn dsz|ao an ab|dfn dfv|avn avo avv|nsy]; cbn [print_def wf_sdef] in *.
+    intros d rest Hw. destruct d as [s|[[b [[b1 b2]|]]|]|ns|mi mn msz mtx sigs|kw ts|co ct|[vi|] vn vvs|tn tvs|svi svn svc svt|xi xtxs|en et emn emx eu einit ei eacc enode enodes|dn dsz|ao an ab|dfn dfv|avn avo avv|nsy|tsg]; cbn [print_def wf_sdef] in *.
     - eexists kw_version, 32, _. rewrite <- app_assoc. cbn [app].
       split; [reflexivity|]. split; [exact is_ident_version|]. split; [unfold ascii; lia|]. split; [reflexivity|].
-      split; [|reflexivity]. unfold SL. repeat (rewrite app_length || cbn [length]). lia.
+      split; [|intros _; reflexivity]. unfold SL. repeat (rewrite app_length || cbn [length]). lia.
     - eexists kw_bit_timing, 58, _. rewrite <- app_assoc. cbn [app].
       split; [reflexivity|]. split; [exact is_ident_bit_timing|]. split; [unfold ascii; lia|]. split; [reflexivity|].
-      split; [|reflexivity]. unfold SL. repeat (rewrite app_length || cbn [length]). lia.
+      split; [|intros _; reflexivity]. unfold SL. repeat (rewrite app_length || cbn [length]). lia.
     - eexists kw_bit_timing, 58, _. rewrite <- app_assoc. cbn [app].
       split; [reflexivity|]. split; [exact is_ident_bit_timing|]. split; [unfold ascii; lia|]. split; [reflexivity|].
-      split; [|reflexivity]. unfold SL. repeat (rewrite app_length || cbn [length]). lia.
+      split; [|intros _; reflexivity]. unfold SL. repeat (rewrite app_length || cbn [length]). lia.
     - eexists kw_bit_timing, 58, _. rewrite <- app_assoc. cbn [app].
       split; [reflexivity|]. split; [exact is_ident_bit_timing|]. split; [unfold ascii; lia|]. split; [reflexivity|].
-      split; [|reflexivity]. unfold SL. repeat (rewrite app_length || cbn [length]). lia.
+      split; [|intros _; reflexivity]. unfold SL. repeat (rewrite app_length || cbn [length]). lia.
     - eexists kw_nodes, 58, _. rewrite <- app_assoc. cbn [app].
       split; [reflexivity|]. split; [exact is_ident_nodes|]. split; [unfold ascii; lia|]. split; [reflexivity|].
-      split; [|reflexivity]. unfold SL. repeat (rewrite app_length || cbn [length]). lia.
+      split; [|intros _; reflexivity]. unfold SL. repeat (rewrite app_length || cbn [length]). lia.
     - eexists kw_message, 32, _. rewrite <- app_assoc. cbn [app].
       split; [reflexivity|]. split; [exact is_ident_message|]. split; [unfold ascii; lia|]. split; [reflexivity|].
-      split; [|reflexivity]. unfold SL. repeat (rewrite app_length || cbn [length]). lia.
+      split; [|intros _; reflexivity]. unfold SL. repeat (rewrite app_length || cbn [length]). lia.
     - destruct Hw as (Hk & Hd & _). destruct (sp_list_head' _ print_utok ts rest) as (c & r & E & Hc & Hnc & _).
       exists kw, c, r. rewrite <- !app_assoc. cbn [app]. rewrite E.
       split; [reflexivity|]. split; [exact (ident_valid_shape kw Hk)|]. split; [assumption|]. split; [assumption|].
       split; [unfold SL; rewrite !app_length; cbn [length]; lia|].
-      unfold dispatching in Hd. repeat (apply orb_false_iff in Hd; destruct Hd as [Hd ?]). assumption.
+      intros _. unfold dispatching in Hd. repeat (apply orb_false_iff in Hd; destruct Hd as [Hd ?]). assumption.
     - assert (E : exists R, print_obj co ++ 32 :: 34 :: ct ++ 34 :: 32 :: 59 :: cr ++ [10] = 32 :: R) by (destruct co; cbn; eexists; reflexivity).
       destruct E as (R & E). pose proof (f_equal (@length Z) E) as EL. repeat (rewrite app_length in EL || cbn [length] in EL).
       exists kw_comment, 32, (R ++ rest). rewrite <- app_assoc. rewrite E.
       split; [reflexivity|]. split; [match goal with |- is_ident ?k => exact (ident_valid_shape k eq_refl) end|]. split; [unfold ascii; lia|]. split; [reflexivity|].
-      split; [|reflexivity]. unfold SL. repeat (rewrite app_length || cbn [length]). lia.
+      split; [|intros _; reflexivity]. unfold SL. repeat (rewrite app_length || cbn [length]). lia.
     - eexists kw_value_descriptions, 32, _. rewrite <- app_assoc. cbn [app].
       split; [reflexivity|]. split; [match goal with |- is_ident ?k => exact (ident_valid_shape k eq_refl) end|]. split; [unfold ascii; lia|]. split; [reflexivity|].
-      split; [|reflexivity]. unfold SL. repeat (rewrite app_length || cbn [length]). lia.
+      split; [|intros _; reflexivity]. unfold SL. repeat (rewrite app_length || cbn [length]). lia.
     - eexists kw_value_descriptions, 32, _. rewrite <- app_assoc. cbn [app].
       split; [reflexivity|]. split; [match goal with |- is_ident ?k => exact (ident_valid_shape k eq_refl) end|]. split; [unfold ascii; lia|]. split; [reflexivity|].
-      split; [|reflexivity]. unfold SL. repeat (rewrite app_length || cbn [length]). lia.
+      split; [|intros _; reflexivity]. unfold SL. repeat (rewrite app_length || cbn [length]). lia.
     - eexists kw_value_table, 32, _. rewrite <- app_assoc. cbn [app].
       split; [reflexivity|]. split; [match goal with |- is_ident ?k => exact (ident_valid_shape k eq_refl) end|]. split; [unfold ascii; lia|]. split; [reflexivity|].
-      split; [|reflexivity]. unfold SL. repeat (rewrite app_length || cbn [length]). lia.
+      split; [|intros _; reflexivity]. unfold SL. repeat (rewrite app_length || cbn [length]). lia.
     - eexists kw_signal_value_type, 32, _. rewrite <- app_assoc. cbn [app].
       split; [reflexivity|]. split; [match goal with |- is_ident ?k => exact (ident_valid_shape k eq_refl) end|]. split; [unfold ascii; lia|]. split; [reflexivity|].
-      split; [|reflexivity]. unfold SL. repeat (rewrite app_length || cbn [length]). lia.
+      split; [|intros _; reflexivity]. unfold SL. repeat (rewrite app_length || cbn [length]). lia.
     - eexists kw_message_transmitters, 32, _. rewrite <- app_assoc. cbn [app].
       split; [reflexivity|]. split; [match goal with |- is_ident ?k => exact (ident_valid_shape k eq_refl) end|]. split; [unfold ascii; lia|]. split; [reflexivity|].
-      split; [|reflexivity]. unfold SL. repeat (rewrite app_length || cbn [length]). lia.
+      split; [|intros _; reflexivity]. unfold SL. repeat (rewrite app_length || cbn [length]). lia.
     - eexists kw_envvar, 32, _. rewrite <- app_assoc. cbn [app].
       split; [reflexivity|]. split; [match goal with |- is_ident ?k => exact (ident_valid_shape k eq_refl) end|]. split; [unfold ascii; lia|]. split; [reflexivity|].
-      split; [|reflexivity]. unfold SL. repeat (rewrite app_length || cbn [length]). lia.
+      split; [|intros _; reflexivity]. unfold SL. repeat (rewrite app_length || cbn [length]). lia.
     - eexists kw_envvar_data, 32, _. rewrite <- app_assoc. cbn [app].
       split; [reflexivity|]. split; [match goal with |- is_ident ?k => exact (ident_valid_shape k eq_refl) end|]. split; [unfold ascii; lia|]. split; [reflexivity|].
-      split; [|reflexivity]. unfold SL. repeat (rewrite app_length || cbn [length]). lia.
+      split; [|intros _; reflexivity]. unfold SL. repeat (rewrite app_length || cbn [length]). lia.
     - assert (E : exists R, print_attr_obj ao ++ 32 :: print_quoted an ++ print_attr_body ab ++ 32 :: 59 :: cr ++ [10] = 32 :: R)
         by (destruct ao; cbn; eexists; reflexivity).
       destruct E as (R & E). pose proof (f_equal (@length Z) E) as EL. repeat (rewrite app_length in EL || cbn [length] in EL).
       exists kw_attribute, 32, (R ++ rest). rewrite <- app_assoc. rewrite E.
       split; [reflexivity|]. split; [exact (ident_valid_shape kw_attribute eq_refl)|]. split; [unfold ascii; lia|]. split; [reflexivity|].
-      split; [|reflexivity]. unfold SL. repeat (rewrite app_length || cbn [length]). lia.
+      split; [|intros _; reflexivity]. unfold SL. repeat (rewrite app_length || cbn [length]). lia.
     - eexists kw_attribute_default, 32, _. rewrite <- app_assoc. cbn [app].
       split; [reflexivity|]. split; [exact (ident_valid_shape kw_attribute_default eq_refl)|]. split; [unfold ascii; lia|]. split; [reflexivity|].
-      split; [|reflexivity]. unfold SL. repeat (rewrite app_length || cbn [length]). lia.
+      split; [|intros _; reflexivity]. unfold SL. repeat (rewrite app_length || cbn [length]). lia.
     - eexists kw_attribute_value, 32, _. rewrite <- app_assoc. cbn [app].
       split; [reflexivity|]. split; [exact (ident_valid_shape kw_attribute_value eq_refl)|]. split; [unfold ascii; lia|]. split; [reflexivity|].
-      split; [|reflexivity]. unfold SL. repeat (rewrite app_length || cbn [length]). lia.
+      split; [|intros _; reflexivity]. unfold SL. repeat (rewrite app_length || cbn [length]). lia.
     - eexists kw_new_symbols, 32, _. rewrite <- app_assoc. cbn [app].
       split; [reflexivity|]. split; [exact (ident_valid_shape kw_new_symbols eq_refl)|]. split; [unfold ascii; lia|]. split; [reflexivity|].
-      split; [|reflexivity]. unfold SL. repeat (rewrite app_length || cbn [length]). lia.
+      split; [|intros _; reflexivity]. unfold SL. repeat (rewrite app_length || cbn [length]). lia.
+    - eexists kw_signal, 32, _. rewrite print_signal_eq.
+      split; [reflexivity|]. split; [exact is_ident_signal|]. split; [unfold ascii; lia|]. split; [reflexivity|].
+      split; [|intros H; discriminate H]. pose proof (print_signal_ge tsg). unfold SL, kw_signal. cbn [length]. lia.
   Qed.
 
   Lemma wf_defs_Forall : forall ds ctx, wf_defs ctx ds -> Forall wf_sdef ds.
@@ -3624,17 +3627,32 @@ Section RT.
   Proof. intros ctx g d its (Hg & (Hd & _) & Hi). auto. Qed.
 
   (** what follows a definition inside a file: blank lines, then the next definition or the end *)
-  Lemma rest_top_items : forall its gend ctx, wf_items ctx its -> blank_block gend ->
+  Definition first_not_signal (its : list item) : Prop :=
+    match its with [] => True | (_, d) :: _ => is_signal d = false end.
+
+  Lemma rest_top_items : forall its gend ctx, wf_items ctx its -> blank_block gend -> first_not_signal its ->
     (SL + length (print_items cr its ++ gend) + 3 <= F)%nat -> rest_top (print_items cr its ++ gend).
+  Proof.
+    intros its gend ctx Hw Hge Hfs HF. destruct its as [|[g d] its].
+    - cbn [print_items app] in *. exists gend, []. split; [rewrite app_nil_r; reflexivity|]. split; [exact Hge|]. left. split; [reflexivity|lia].
+    - destruct (wf_items_head _ _ _ _ Hw) as (Hg & Hd & _). cbn [print_items first_not_signal] in *.
+      repeat rewrite <- app_assoc in *. exists g, (print_def cr d ++ print_items cr its ++ gend).
+      split; [reflexivity|]. split; [exact Hg|]. right.
+      destruct (print_def_head d (print_items cr its ++ gend) Hd) as (kw & c & r & E & Hk & Hc & Hnc & Hl & Hns).
+      exists kw, c, r. rewrite !app_length in HF. split; [exact E|]. split; [exact Hk|]. split; [exact Hc|]. split; [exact Hnc|].
+      split; [lia|exact (Hns Hfs)].
+  Qed.
+
+  Lemma rest_ok_items : forall its gend ctx, wf_items ctx its -> blank_block gend ->
+    (SL + length (print_items cr its ++ gend) + 3 <= F)%nat -> rest_ok (print_items cr its ++ gend).
   Proof.
     intros its gend ctx Hw Hge HF. destruct its as [|[g d] its].
     - cbn [print_items app] in *. exists gend, []. split; [rewrite app_nil_r; reflexivity|]. split; [exact Hge|]. left. split; [reflexivity|lia].
     - destruct (wf_items_head _ _ _ _ Hw) as (Hg & Hd & _). cbn [print_items] in *.
       repeat rewrite <- app_assoc in *. exists g, (print_def cr d ++ print_items cr its ++ gend).
       split; [reflexivity|]. split; [exact Hg|]. right.
-      destruct (print_def_head d (print_items cr its ++ gend) Hd) as (kw & c & r & E & Hk & Hc & Hnc & Hl & Hns).
-      exists kw, c, r. rewrite !app_length in HF. split; [exact E|]. split; [exact Hk|]. split; [exact Hc|]. split; [exact Hnc|].
-      split; [lia|exact Hns].
+      destruct (print_def_head d (print_items cr its ++ gend) Hd) as (kw & c & r & E & Hk & Hc & Hnc & Hl & _).
+      exists kw, c, r. rewrite !app_length in HF. split; [exact E|]. split; [exact Hk|]. split; [exact Hc|]. split; [exact Hnc|]. lia.
   Qed.
 
   Lemma head_ascii_items : forall its gend ctx, wf_items ctx its -> blank_block gend -> head_ascii (print_items cr its ++ gend).
@@ -3670,16 +3688,17 @@ Section RT.
 
   (** one definition: from the canonical state at its keyword, the dispatched parser returns its
       denotation and leaves the parser ready at the next line *)
-  Lemma step_def : forall d rest defs ctx m line off, ctx_agrees ctx defs -> wf_sdef_ctx ctx d -> rest_top rest ->
+  Lemma step_def : forall d rest defs ctx m line off, ctx_agrees ctx defs -> wf_sdef_ctx ctx d -> rest_ok rest ->
+    (is_message d = true -> rest_top rest) ->
     (m + length (print_def cr d) + length rest + 4 <= F)%nat ->
     forall st, Ready0 m line off (print_def cr d ++ rest) st ->
     exists kw st1 st2, peek_token st = POk (kwtok line off kw) st1 /\ peek_keyword il id F st1 = POk kw st1
                        /\ the_def defs kw st1 = POk (elab_def_ctx cr ctx line off d) st2
                        /\ Ready SL (line + def_lines d) (off + blen (print_def cr d)) rest st2.
   Proof.
-    intros d rest defs ctx m line off Hag Hwc Htop HF st (_ & HR). pose proof (rest_top_ok rest Htop) as Hok.
+    intros d rest defs ctx m line off Hag Hwc Hok Htop HF st (_ & HR).
     pose proof Hwc as (Hw & Hwv).
-    destruct d as [s|[[b [[b1 b2]|]]|]|ns|mi mn msz mtx sigs|kw ts|co ct|[vi|] vn vvs|tn tvs|svi svn svc svt|xi xtxs|en et emn emx eu einit ei eacc enode enodes|dn dsz|ao an ab|dfn dfv|avn avo avv|nsy]; cbn [wf_sdef elab_def elab_def_ctx] in *.
+    destruct d as [s|[[b [[b1 b2]|]]|]|ns|mi mn msz mtx sigs|kw ts|co ct|[vi|] vn vvs|tn tvs|svi svn svc svt|xi xtxs|en et emn emx eu einit ei eacc enode enodes|dn dsz|ao an ab|dfn dfv|avn avo avv|nsy|tsg]; cbn [wf_sdef elab_def elab_def_ctx] in *.
     - (* VERSION *)
       destruct (HR kw_version 32 (34 :: s ++ 34 :: cr ++ 10 :: rest)) as (ll & Ep);
         [cbn [print_def]; unfold signals_text; repeat (rewrite <- app_assoc; cbn [app]); try rewrite Ec; reflexivity
@@ -3715,7 +3734,7 @@ Section RT.
       destruct (HR kw_message 32 (mi ++ 32 :: mn ++ 32 :: 58 :: 32 :: msz ++ 32 :: mtx ++ cr ++ 10 :: signals_text sigs ++ rest)) as (ll & Ep);
         [cbn [print_def]; unfold signals_text; repeat (rewrite <- app_assoc; cbn [app]); try rewrite Ec; reflexivity
         |exact is_ident_message|unfold ascii; lia|reflexivity|fuel HF|].
-      destruct (step_message mi mn msz mtx sigs rest line off ll Hw Htop) as (st2 & E & HR2); [lia|].
+      destruct (step_message mi mn msz mtx sigs rest line off ll Hw (Htop eq_refl)) as (st2 & E & HR2); [lia|].
       eexists kw_message, _, st2. split; [exact Ep|]. split; [apply peek_keyword_canon|]. split; [exact E|exact HR2].
     - (* unknown line *)
       destruct Hw as (Hk & Hd & Hts).
@@ -3809,29 +3828,42 @@ Section RT.
       destruct (HR kw_new_symbols 32 (58 :: cr ++ 10 :: ns_text cr nsy ++ rest)) as (ll & Ep);
         [cbn [print_def]; unfold signals_text; repeat (rewrite <- app_assoc; cbn [app]); try rewrite Ec; reflexivity
         |exact (ident_valid_shape kw_new_symbols eq_refl)|unfold ascii; lia|reflexivity|fuel2 HF|].
-      destruct (step_new_symbols nsy rest line off ll Hw Htop ltac:(lia)) as (st2 & E & HR2).
+      destruct (step_new_symbols nsy rest line off ll Hw Hok ltac:(lia)) as (st2 & E & HR2).
       eexists kw_new_symbols, _, st2. split; [exact Ep|]. split; [apply peek_keyword_canon|]. split; [exact E|exact HR2].
+    - (* top-level SG_ *)
+      destruct (HR kw_signal 32 (signal_body tsg rest)) as (ll & Ep);
+        [cbn [print_def]; apply print_signal_eq|exact is_ident_signal|unfold ascii; lia|reflexivity
+        |pose proof (print_signal_ge tsg); cbn [print_def] in HF; unfold SL, kw_signal in *; cbn [length] in *; lia|].
+      destruct (step_signal tsg rest line off ll Hw Hok) as (st2 & E & HR2); [cbn [print_def] in HF; lia|].
+      eexists kw_signal, _, st2. split; [exact Ep|]. split; [apply peek_keyword_canon|]. split; [|exact HR2].
+      assert (E' : (plet s0 <- parse_signal il id F; ret (DSignal s0)) (canon line off kw_signal 32 (signal_body tsg rest) ll)
+                   = POk (DSignal (elab_signal line off tsg)) st2) by (unfold bind; rewrite E; reflexivity).
+      exact E'.
   Qed.
 
-  Lemma parse_loop_items : forall its gend f defs ctx n line off st,
-    ctx_agrees ctx defs -> wf_items ctx its -> blank_block gend -> (length its < f)%nat ->
+  Lemma parse_loop_items : forall its gend f defs ctx pm n line off st,
+    ctx_agrees ctx defs -> wf_items ctx its -> sg_placed pm (map snd its) -> blank_block gend -> (length its < f)%nat ->
     (n + length (print_items cr its ++ gend) + 4 <= F)%nat ->
     Ready n line off (print_items cr its ++ gend) st ->
     the_loop f defs st = Ok (defs ++ elab_items cr ctx line off its).
   Proof.
-    induction its as [|[g d] its IH]; intros gend f defs ctx n line off st Hag Hw Hge Hf HF HR; (destruct f as [|f]; [cbn in Hf; lia|]).
+    induction its as [|[g d] its IH]; intros gend f defs ctx pm n line off st Hag Hw Hsg Hge Hf HF HR; (destruct f as [|f]; [cbn in Hf; lia|]).
     - cbn [parse_loop_with print_items elab_items app] in *.
       destruct (HR gend [] (eq_sym (app_nil_r gend)) Hge) as (H1 & _). destruct (H1 eq_refl ltac:(lia)) as (tok & st' & E & Ht).
       rewrite E, Ht. change (EOF =? EOF) with true. cbv iota. rewrite app_nil_r. reflexivity.
     - destruct Hw as (Hg & Hd & Hw'). cbn [print_items] in *. repeat rewrite <- app_assoc in *.
       do 2 rewrite app_length in HF. pose proof (print_def_len_ge d (proj1 Hd)) as Hlen.
-      assert (Htop : rest_top (print_items cr its ++ gend)) by (apply (rest_top_items its gend _ Hw' Hge); lia).
+      cbn [map snd sg_placed] in Hsg. destruct Hsg as (_ & Hsg').
+      assert (Hok : rest_ok (print_items cr its ++ gend)) by (apply (rest_ok_items its gend _ Hw' Hge); lia).
+      assert (Htop : is_message d = true -> rest_top (print_items cr its ++ gend)).
+      { intros Hm. apply (rest_top_items its gend _ Hw' Hge); [|lia]. destruct its as [|[g' d'] its']; [exact I|].
+        cbn [map snd sg_placed first_not_signal] in *. destruct Hsg' as (H & _). exact (H Hm). }
       pose proof (HR g (print_def cr d ++ print_items cr its ++ gend) eq_refl Hg) as HR0.
-      destruct (step_def d (print_items cr its ++ gend) defs ctx (n + length g) (line + nl_count g) (off + blen g) Hag Hd Htop ltac:(lia) st HR0)
+      destruct (step_def d (print_items cr its ++ gend) defs ctx (n + length g) (line + nl_count g) (off + blen g) Hag Hd Hok Htop ltac:(lia) st HR0)
         as (kw & st1 & st2 & Ep & Ek & Ed & HR2).
       cbn [parse_loop_with]. rewrite Ep. cbn [t_typ kwtok]. change (TIdent =? EOF) with false. cbv iota.
       unfold bind. rewrite Ek, Ed. cbn [elab_items].
-      rewrite (IH gend f (defs ++ [elab_def_ctx cr ctx (line + nl_count g) (off + blen g) d]) (ctx_step ctx d) SL
+      rewrite (IH gend f (defs ++ [elab_def_ctx cr ctx (line + nl_count g) (off + blen g) d]) (ctx_step ctx d) (is_message d) SL
                  (line + nl_count g + def_lines d) (off + blen g + blen (print_def cr d)) st2);
         try assumption; [|apply ctx_agrees_step; assumption|cbn in Hf; lia|lia].
       rewrite <- app_assoc. reflexivity.
@@ -3881,8 +3913,8 @@ End RT.
 Lemma print_def_nonempty : forall cr d, (1 <= length (print_def cr d))%nat.
 Proof.
   intros cr d.
-  destruct d as [s|[[b [[b1 b2]|]]|]|ns|mi mn msz mtx sigs|kw ts|co ct|[vi|] vn vvs|tn tvs|svi svn svc svt|xi xtxs|en et emn emx eu einit ei eacc enode enodes|dn dsz|ao an ab|dfn dfv|avn avo avv|nsy];
-    cbn [print_def]; rewrite !app_length; cbn [length]; lia.
+  destruct d as [s|[[b [[b1 b2]|]]|]|ns|mi mn msz mtx sigs|kw ts|co ct|[vi|] vn vvs|tn tvs|svi svn svc svt|xi xtxs|en et emn emx eu einit ei eacc enode enodes|dn dsz|ao an ab|dfn dfv|avn avo avv|nsy|tsg];
+    cbn [print_def]; unfold print_signal; rewrite !app_length; cbn [length]; lia.
 Qed.
 
 Lemma length_items_ge : forall cr its, (length its <= length (print_items cr its))%nat.
@@ -3896,13 +3928,14 @@ Qed.
 Theorem parse_print_layout : forall il id cr its gend, wf_lfile cr its gend ->
   parse_bytes il id (print_file cr its gend) = Ok (elaborate_file cr its).
 Proof.
-  intros il id cr its gend (Hcr & Hw & Hge). unfold parse_bytes, parse, elaborate_file, print_file.
+  intros il id cr its gend (Hcr & Hw & Hsg & Hge). unfold parse_bytes, parse, elaborate_file, print_file.
   pose proof (length_items_ge cr its) as Hl.
   rewrite (parse_loop_items il id (fuel_for (print_items cr its ++ gend)) cr Hcr its gend
-             (fuel_for (print_items cr its ++ gend)) [] [] 0 1 0 (p_init (print_items cr its ++ gend))).
+             (fuel_for (print_items cr its ++ gend)) [] [] false 0 1 0 (p_init (print_items cr its ++ gend))).
   - reflexivity.
   - intros n. reflexivity.
   - exact Hw.
+  - exact Hsg.
   - exact Hge.
   - unfold fuel_for. rewrite app_length. lia.
   - unfold fuel_for. lia.
@@ -3931,9 +3964,10 @@ Qed.
 Theorem parse_print_partial : forall il id cr ds, cr_ok cr -> wf_file ds ->
   parse_bytes il id (print cr ds) = Ok (elaborate cr ds).
 Proof.
-  intros il id cr ds Hcr Hw. pose proof (parse_print_layout il id cr (plain ds) []) as H.
+  intros il id cr ds Hcr (Hw & Hsg). pose proof (parse_print_layout il id cr (plain ds) []) as H.
   unfold print_file, elaborate_file in H. rewrite app_nil_r, print_plain, elab_plain in H. apply H.
-  split; [exact Hcr|]. split; [apply wf_plain; exact Hw|exact blank_block_nil].
+  split; [exact Hcr|]. split; [apply wf_plain; exact Hw|]. split; [|exact blank_block_nil].
+  unfold plain. rewrite map_map. cbn [snd]. rewrite map_id. exact Hsg.
 Qed.
 
 (** files without BA_DEF_DEF_ / BA_ : well-formedness is definition-wise *)
@@ -3954,7 +3988,8 @@ Corollary unknown_one : forall il id cr kw ts ds, cr_ok cr -> wf_sdef (SUnknown 
   = Ok (DUnknown {| p_line := 1; p_column := 1; p_offset := 0 |} kw
         :: elab_from cr [] 2 (blen (print_def cr (SUnknown kw ts))) ds).
 Proof.
-  intros il id cr kw ts ds Hcr Hu Hw. rewrite parse_print_partial; [reflexivity|exact Hcr|]. split; [split; [exact Hu|exact I]|exact Hw].
+  intros il id cr kw ts ds Hcr Hu (Hw & Hsg). rewrite parse_print_partial; [reflexivity|exact Hcr|].
+  split; [split; [split; [exact Hu|exact I]|exact Hw]|]. split; [intros H; discriminate H|exact Hsg].
 Qed.
 
 (** a boolean check of number literals (used for the concrete samples) *)
@@ -4022,6 +4057,7 @@ Definition sample_ds : list sdef :=
     SMessage [50; 53; 54; 54; 56; 52; 52; 57; 50; 54] [77; 115; 103] [56] [69; 67; 85; 49]
              [sample_signal; sample_signal];                               (* BO_ 2566844926 Msg : 8 ECU1 + 2 SG_ lines *)
     SUnknown [70; 79; 79; 95] [UIdent [120]; UNum [49; 50]; UPunct 59];    (* FOO_ x 12 ; *)
+    SSignal sample_signal;                                                 (* a top-level SG_ line (after the unknown line) *)
     SBitTiming None;                                                       (* BS_: *)
     SVersion [] ].                                                         (* VERSION "" *)
 
@@ -4051,6 +4087,7 @@ Proof.
   all: try (vm_compute; reflexivity).
   all: try (apply Hd; [reflexivity | repeat constructor | (left; lia) || (right; reflexivity)]).
   all: try (split; [lia|]; repeat split; try reflexivity; try lia; discriminate).
+  all: try exact Hsig.
 Qed.
 
 (** a second well-formed source file, with the one-line kinds that end in " ;" *)
@@ -4091,11 +4128,17 @@ Qed.
 
 (** the printed text of the second sample, for the record *)
 
+Ltac placed := cbn [sg_placed is_message is_signal]; repeat split; intros; try reflexivity; try discriminate.
+
 Lemma sample_ds_wf_file : wf_file sample_ds.
-Proof. apply wf_defs_context_free; [exact sample_ds_wf|]. unfold sample_ds. repeat constructor. Qed.
+Proof.
+  split; [apply wf_defs_context_free; [exact sample_ds_wf|]; unfold sample_ds; repeat constructor|unfold sample_ds; placed].
+Qed.
 
 Lemma sample2_ds_wf_file : wf_file sample2_ds.
-Proof. apply wf_defs_context_free; [exact sample2_ds_wf|]. unfold sample2_ds. repeat constructor. Qed.
+Proof.
+  split; [apply wf_defs_context_free; [exact sample2_ds_wf|]; unfold sample2_ds; repeat constructor|unfold sample2_ds; placed].
+Qed.
 
 (** a third sample: attribute definitions, defaults and values (typed by the first BA_DEF_ of the name) *)
 Definition sample3_ds : list sdef :=
@@ -4122,7 +4165,8 @@ Proof.
                wf_digits (d0 :: t)) by (intros d0 t ? ? ?; exists d0, t; auto).
   assert (Hm : wf_msgid [49]).
   { split; [|reflexivity]. split; [apply Hd; [reflexivity|constructor|right; reflexivity]|vm_compute; reflexivity]. }
-  unfold wf_file, sample3_ds. cbn [wf_defs ctx_step app attr_body_type attr_body_enums].
+  split; [|unfold sample3_ds; placed].
+  unfold sample3_ds. cbn [wf_defs ctx_step app attr_body_type attr_body_enums].
   unfold wf_sdef_ctx, wf_attr_value. cbn [wf_sdef wf_attr_body wf_range wf_obj lookup_ctx bytes_eqb Z.eqb Pos.eqb andb].
   repeat split; try exact Hm; try reflexivity; try exact I;
     try (apply wf_numb_ok; vm_compute; reflexivity);
@@ -4144,7 +4188,8 @@ Definition sample_layout : list item := map (fun d => ([13; 10], d)) sample3_ds.
 Lemma sample_layout_wf : wf_lfile [13] sample_layout [32; 13; 10].
 Proof.
   split; [repeat (apply Forall_cons; [lia|]); apply Forall_nil|]. split.
-  - apply wf_with_blank; [|exact sample3_ds_wf_file].
+  - apply wf_with_blank; [|exact (proj1 sample3_ds_wf_file)].
     split; [repeat (apply Forall_cons; [unfold blank_char; lia|]); apply Forall_nil|right; exists [13]; reflexivity].
-  - split; [repeat (apply Forall_cons; [unfold blank_char; lia|]); apply Forall_nil|right; exists [32; 13]; reflexivity].
+  - split; [unfold sample_layout; rewrite map_map; cbn [snd]; rewrite map_id; exact (proj2 sample3_ds_wf_file)|].
+    split; [repeat (apply Forall_cons; [unfold blank_char; lia|]); apply Forall_nil|right; exists [32; 13]; reflexivity].
 Qed.
